@@ -132,7 +132,7 @@ def mutate_illformed(rng, t, B, D):
     """one of: unknown element, unknown sequence, span past the end, overlapping spans, delayed
     replication without factor, bad F/Y, dangling replication at the end"""
     t = list(t)
-    k = rng.choice(["unknown0", "unknown3", "pastend", "overlap", "overlap3", "nofactor", "dangling", "badfxy", "span+1", "dropfactor"])
+    k = rng.choice(["unknown0", "unknown3", "pastend", "overlap", "overlap3", "nofactor", "dangling", "badfxy", "y256", "span+1", "dropfactor"])
     if k == "unknown0":
         t.insert(rng.randrange(len(t) + 1), rng.choice([63999 - 63000 + 47190, 47001, 1250]))
     elif k == "unknown3":
@@ -157,6 +157,18 @@ def mutate_illformed(rng, t, B, D):
         t += [rng.choice([101001, 101000, 102003])] + ([31001] if rng.random() < 0.3 else [])
     elif k == "badfxy":
         t.insert(rng.randrange(len(t) + 1), rng.choice([400000, 12256, 101300, 999999]))
+    elif k == "y256":
+        # Y = 256 is the first value that does not fit the 8 bits of a descriptor: otherwise well-formed
+        r = rng.random()
+        if r < 0.5:
+            n = rng.choice([1, 2])
+            ins = [100000 + 1000 * n + 256] + [pick_element(rng, B) for _ in range(n)]
+        elif r < 0.8:
+            ins = [rng.choice([201256, 202256, 208256, 204256, 205256])] + [pick_element(rng, B)]
+        else:
+            ins = [rng.choice([301256, 1256, 31256])]
+        i = rng.randrange(len(t) + 1)
+        t[i:i] = ins
     elif k == "span+1":
         idx = [i for i, d in enumerate(t) if regs.F(d) == 1]
         if idx:
